@@ -281,7 +281,12 @@ def gen_tree(sp, rng, depth, ish=None, kinds=None, cplx=True, log=None):
         A = gen_tree(sp, rng, depth - 1, list(B.oshape), kinds, cplx, log)
         return A * B
     if c in ("add", "sub"):
-        A = gen_tree(sp, rng, depth - 1, ish, kinds, cplx, log)
+        if rng.random() < 0.4:     # first term returns a VIEW of its input (Transpose, Reshape, Flip, Slice, Downsample ...)
+            r = gen_leaf(sp, rng, ish, kinds=["transpose", "reshape", "flip", "slice", "downsample", "identity"], cplx=cplx)
+            A = r[0] if r else lin.Identity(ish)
+            log.append(r[1] if r else "identity")
+        else:
+            A = gen_tree(sp, rng, depth - 1, ish, kinds, cplx, log)
         how = rng.choice(["pre", "post", "scale", "conj"])
         if how == "pre":
             B = A * shape_preserving(sp, rng, ish, cplx)[0]
@@ -393,7 +398,7 @@ def gen_tree(sp, rng, depth, ish=None, kinds=None, cplx=True, log=None):
 def gen_malformed(sp, rng):
     """Returns a thunk building an ill-shaped combination and a description; python must raise."""
     lin = sp.linop
-    k = rng.choice(["compose", "add_i", "add_o", "hstack_o", "hstack_rank", "hstack_off", "vstack_i", "vstack_off",
+    k = rng.choice(["compose", "add_i", "add_o", "add_rank_prefix", "hstack_rank_prefix", "vstack_rank_prefix", "hstack_o", "hstack_rank", "hstack_off", "vstack_i", "vstack_off",
                     "matmul", "rmatmul", "multiply", "nonpositive", "conv_mixed", "conv_channel"])
     a = rand_shape(rng, 3, 4)
     b = list(a); j = rng.randrange(len(b)); b[j] += rng.randint(1, 2)
@@ -404,6 +409,21 @@ def gen_malformed(sp, rng):
         return k, lambda: lin.Add([lin.Resize(a, a), lin.Resize(a, b)]), "(Add [Resize %s %s None None; Resize %s %s None None])" % (zl(a), zl(a), zl(a), zl(b))
     if k == "add_o":
         return k, lambda: lin.Add([lin.Resize(a, a), lin.Resize(b, a)]), "(Add [Resize %s %s None None; Resize %s %s None None])" % (zl(a), zl(a), zl(b), zl(a))
+    if k in ("add_rank_prefix", "hstack_rank_prefix", "vstack_rank_prefix"):
+        # output (input) shapes of different RANK where one is a prefix of the other
+        n, m = rng.randint(2, 3), rng.randint(2, 3)
+        sq = [n, m]
+        if k == "add_rank_prefix":
+            ops = lambda: [I(sq), lin.Sum(sq, axes=(1,))]
+            term = "(Add [Identity %s; Sum %s [1]])" % (zl(sq), zl(sq))
+            return k, lambda: lin.Add(ops()), term
+        if k == "hstack_rank_prefix":
+            ax = rng.choice([0, -1, None])
+            term = "(Hstack [Identity %s; Sum %s [1]] %s)" % (zl(sq), zl(sq), "None" if ax is None else "(Some (%d))" % ax)
+            return k, lambda: lin.Hstack([I(sq), lin.Sum(sq, axes=(1,))], axis=ax), term
+        ax = rng.choice([0, -1, None])
+        term = "(Vstack [Identity %s; Tile %s [1]] %s)" % (zl(sq), zl(sq), "None" if ax is None else "(Some (%d))" % ax)
+        return k, lambda: lin.Vstack([I(sq), lin.Tile(sq, [1])], axis=ax), term
     if k == "hstack_o":
         return k, lambda: lin.Hstack([I(a), I(b)], axis=0), "(Hstack [Identity %s; Identity %s] (Some 0))" % (zl(a), zl(b))
     if k == "hstack_rank":
